@@ -736,3 +736,173 @@ contract(
     note="float.tiny and float.eps are symbolic constants with 0 < tiny < eps < 1: a guard that compares with another constant is a "
          "different formula",
 )
+
+
+# ---------------------------------------------------------------------------------------------------
+# gamma_method: accumulation of the autocorrelation function over the replicas and pair-count normalisation
+
+_CG_CALLS = []
+
+
+def _cg_stub_result(a, ctx):
+    g = SSeq.fresh("calc_gamma", "ndarray", "real")
+    g.length = a.w_max
+    _CG_CALLS.append((a.deltas, a.idx, a.shape, a.w_max, a.fft, a.gapsize, g))
+    return g
+
+
+_CG_STUB = contract(
+    REL + "::Obs._calc_gamma", props=[], assumed=True, register=False, name=REL + "::Obs._calc_gamma[result recorded]",
+    params=dict(self=Custom(lambda n, c, s: None), deltas=Custom(lambda n, c, s: None), idx=Custom(lambda n, c, s: None),
+                shape=Custom(lambda n, c, s: None), w_max=Custom(lambda n, c, s: None), fft=Custom(lambda n, c, s: None),
+                gapsize=Custom(lambda n, c, s: None)),
+    result=_cg_stub_result,
+    note="inside the accumulation slice every call of _calc_gamma returns an array of length w_max that is recorded together with its "
+         "arguments (what the array contains is the contract of _calc_gamma itself)",
+)
+
+
+def _acc_slice(mod, fnode):
+    loops = [n for n in ast.walk(fnode) if isinstance(n, ast.For)]
+    for lp in loops:
+        start = end = None
+        for i, st in enumerate(lp.body):
+            if isinstance(st, ast.Assign) and isinstance(st.targets[0], ast.Subscript) and isinstance(st.targets[0].value, ast.Name) \
+                    and st.targets[0].value.id == "e_gamma" and start is None:
+                start = i
+            if isinstance(st, ast.AugAssign) and isinstance(st.op, ast.Div) and "e_gamma" in ast.dump(st.target):
+                end = i
+        if start is not None and end is not None:
+            return lp.body[start:end + 1]
+    from pyvc.sym import CheckerError
+    raise CheckerError("contract no longer binds: accumulation block of gamma_method not found")
+
+
+ACC_REPLICAS = {"one": ["A|r1"], "two": ["A|r1", "A|r2"]}
+
+
+def _acc_obj(reps):
+    def make(name, ctx, shape=None):
+        from pyvc.specs import IdlList
+        o = SObj("Obs", {"deltas": CDict(), "idl": CDict(), "shape": CDict(), "e_rho": CDict(), "e_drho": CDict()})
+        for r in reps:
+            d = SSeq.fresh("%s.deltas.%s" % (name, r), "ndarray", "real")
+            ctx.assume(d.length >= 1)
+            o.attrs["deltas"].d[r] = d
+            o.attrs["idl"].d[r] = IdlList(min_len=1).make("%s.idl.%s" % (name, r), ctx, None)
+            o.attrs["shape"].d[r] = d.length
+        return o
+    return make
+
+
+def _is_ones(x):
+    return isinstance(x, SSeq) and z3.is_app(x.arr) and x.arr.decl().kind() == z3.Z3_OP_CONST_ARRAY and z3.simplify(x.arr.arg(0) == 1).eq(z3.BoolVal(True))
+
+
+def _acc_post(a, r):
+    if not isinstance(a.self, SObj):
+        return _acc_post_native(a, r)
+    reps = list(a.e_content.d["A"].items)
+    o = a.self
+    w = a.w_max
+    calls = list(_CG_CALLS)
+    out = {"two calls of _calc_gamma per replica": len(calls) == 2 * len(reps)}
+    if len(calls) != 2 * len(reps):
+        return out
+    data, ones = [], []
+    for rn in reps:
+        dd = [c for c in calls if isinstance(c[0], SSeq) and c[0].arr.eq(o.attrs["deltas"].d[rn].arr)]
+        on = [c for c in calls if _is_ones(c[0]) and tz(c[0].length).eq(tz(o.attrs["shape"].d[rn]))
+              and isinstance(c[1], SSeq) and c[1].arr.eq(o.attrs["idl"].d[rn].arr)]
+        ok_args = lambda c: (isinstance(c[1], SSeq) and c[1].arr.eq(o.attrs["idl"].d[rn].arr) and tz(c[2]).eq(tz(o.attrs["shape"].d[rn]))
+                             and c[3] is a.w_max and c[4] is a.fft and c[5] is a.gapsize)
+        out["fluctuations of %s with its own configuration list" % rn] = len(dd) == 1 and ok_args(dd[0])
+        out["pair count of %s: ones on the same configuration list" % rn] = len(on) >= 1 and ok_args(on[0])
+        if len(dd) != 1 or not on:
+            return out
+        data.append(dd[0][6])
+        ones.append(on[0][6])
+    G = D(r.e_gamma, "A")
+
+    def tot(seqs, t):
+        x = At(seqs[0], t)
+        for s_ in seqs[1:]:
+            x = x + At(s_, t)
+        return x
+    out["Gamma(t) = sum over replicas / max(1, number of pairs)"] = And(Len(G) == w, ForAll(0, w, lambda t: eq(
+        At(G, t), tot(data, t) / Ite(tot(ones, t) < 1, Fraction(1), tot(ones, t)))))
+    out["rho and drho start from zero arrays of length w_max"] = And(Len(D(A(r.self, "e_rho"), "A")) == w, Len(D(A(r.self, "e_drho"), "A")) == w)
+    return out
+
+
+def _acc_native(args):
+    o = args["self"]
+    o.gamma_method(fft=args["fft"])
+    from pyvc.driver import Namespace
+    return Namespace({"self": o, "e_gamma": None})
+
+
+def _acc_gen(reps):
+    def gen(rng, case):
+        from contracts.obsmodel import native_obs_from
+        g = rng.choice([1, 2, 3])
+        chains = {}
+        for rn in reps:
+            kind = rng.choice(["range", "list"])
+            idl = G.lattice_idl(rng, kind, g, rng.randint(8, 14))
+            if kind == "list" and len(set(idl[j + 1] - idl[j] for j in range(len(idl) - 1))) == 1:
+                idl[-1] += g
+            chains[rn] = (idl, list(G.reals(rng, len(idl))))
+        o = native_obs_from({"chains": chains})
+        return {"self": o, "e_name": "A", "e_content": {"A": list(reps)}, "e_gamma": {}, "w_max": 1, "fft": case["fft"] == "T", "gapsize": g}
+    return gen
+
+
+def _acc_post_native(a, r):
+    """independent evaluation of the normalised autocorrelation function: pairs of configurations t lattice steps apart, summed over
+    the replicas, divided by the number of such pairs; compared through rho(t) = Gamma(t) / Gamma(0)"""
+    import numpy as np
+    o = r.self
+    reps = list(a.e_content["A"])
+    gaps = []
+    for rn in reps:
+        idl = list(o.idl[rn])
+        gaps += [idl[k + 1] - idl[k] for k in range(len(idl) - 1)]
+    g = int(np.gcd.reduce(gaps)) if gaps else 1
+    rho = np.asarray(o.e_rho["A"])
+    w = len(rho)
+    num, cnt = np.zeros(w), np.zeros(w)
+    for rn in reps:
+        idl = list(o.idl[rn])
+        pos = [(c - idl[0]) // g for c in idl]
+        d = np.asarray(o.deltas[rn])
+        where = {p: k for k, p in enumerate(pos)}
+        for k, p in enumerate(pos):
+            for t in range(w):
+                j = where.get(p + t)
+                if j is not None:
+                    num[t] += d[k] * d[j]
+                    cnt[t] += 1
+    gam = num / np.where(cnt < 1, 1.0, cnt)
+    if abs(gam[0]) < 1e-300:
+        return {}
+    return {"Gamma(t) = sum over replicas / max(1, number of pairs)": bool(np.allclose(rho, gam / gam[0], rtol=1e-9, atol=1e-12))}
+
+
+def _acc_pre_hook(interp, mod, fnode, args):
+    del _CG_CALLS[:]
+
+
+for _lab, _reps in ACC_REPLICAS.items():
+    contract(
+        REL + "::Obs.gamma_method", name=REL + "::Obs.gamma_method[accumulation over replicas, %s]" % _lab, props=["C02"],
+        slice=_acc_slice, pre_execute=_acc_pre_hook, overrides={REL + "::Obs._calc_gamma": _CG_STUB},
+        params=dict(self=Custom(_acc_obj(_reps)), e_name=Const("A"), e_content=Const(CDict({"A": CList(list(_reps), "list")})),
+                    e_gamma=Custom(lambda n, c, s: CDict()), w_max=Int(lo=1), fft=Bool(), gapsize=Int(lo=1)),
+        writes=("e_gamma", "self"),
+        writable_attrs={"self": GM_WRITABLE},
+        ensures=_acc_post,
+        native_call=_acc_native, gen=_acc_gen(_reps), crosscheck=False, refute=False,
+        slice_note="from `e_gamma[e_name] = np.zeros(w_max)` to `e_gamma[e_name] /= gamma_div[:w_max]`; live-in variables self, e_name, "
+                   "e_content, e_gamma, w_max, fft, gapsize; replicas of the ensemble: %s" % ", ".join(_reps),
+    )
